@@ -98,6 +98,8 @@ class APIEndpoint(BaseView):
     def view(self, *args, **kwargs):
         """Flask view of the API endpoint."""
         json = request.get_json() or {}
+        if not isinstance(json, dict):
+            return invalid()
         user = session['user']
         LOG.info("Received order %r from user %r (%s, %s, %s)",
                  self.__class__.__name__,
